@@ -124,6 +124,15 @@ def run(chk):
                        "members written: %s" % sorted(w), construct="%s/%s/write-set" % (cls, f["name"]))
             # ---- R1 --------------------------------------------------------------------------------------
             ups = [M.update4] + [f for f in F.funcs(cls, "update") if len(f["params"]) == 3]
+            # every update overload (re)defines each of the four input members - the common routine reads all four, so a
+            # member an overload leaves alone is read as an earlier call left it (the array replay below follows arrays;
+            # the start time is a scalar)
+            for up in ups:
+                w = {p[1] for p, h, nd in E.function_writes(up) if p[0] == "this" and len(p) >= 2}
+                missing = sorted(inputs - w)
+                chk.ob("C10-R1", "%s update/%d stores each of the four inputs (durations, waypoints, start time, boundary states) before the common routine reads them" % (cls, len(up["params"])),
+                       not missing, loc(up), "never written on any path of this overload: %s" % missing if missing else "members written: %s" % sorted(w & inputs),
+                       construct="%s/update%d/stores-inputs" % (cls, len(up["params"])))
             for n in ns:
                 for up in ups:
                     make_env = lambda I, up=up: {p["id"]: I.make_value(p["name"], p["ty"]) for p in up["params"]}
